@@ -33,7 +33,7 @@ def concretise(seq):
             model = a["m"]
         ch, num, ic = a["key"]
         x, y, z = TEMPLATE[a["nm"]]
-        off = num * 5200 + (2600 if ic != " " else 0)
+        off = num * 5200 + (2600 if ic != " " else 0) + (ord(ch) - 65) * 20800
         name = a["nm"] if not (a["resn"] == "VAL" and a["nm"] == "CG") else "CG1"
         lines.append(pdbio.atom_line("ATOM", k + 1, name, a["alt"], a["resn"], ch, num, ic, x + off, y + 13 * (k + 1), z + 7 * k))
     lines.append("ENDMDL")
@@ -169,6 +169,7 @@ def run(ctx):
     for cfg, label, expect in (("MC_Conformations.cfg", "top-up = declared completion (no mutants)", None),
                                ("MC_Conformations_nm.cfg", "never merges residue types (with mutants)", None),
                                ("MC_Conformations_twins.cfg", "twins, label with insertion code", None),
+                               ("MC_Conformations_chains.cfg", "two chains sharing a residue number, with mutants", None),
                                ("MC_Conformations_twins_noicode.cfg", "self-test: label without insertion code", "TopUpAgrees"),
                                ("MC_Conformations_mut.cfg", "self-test: one reference atom per label with mutants", "TopUpAgrees")):
         r = tlc.run("MC_Conformations", cfg, timeout=1800)
@@ -192,6 +193,10 @@ def run(ctx):
     his = [c["s"] for c in r.printed if len({(a["m"], a["alt"]) for a in c["s"]}) >= 2
            and len({a["resn"] for a in c["s"]}) == 2 and any(a["nm"] == "CG" for a in c["s"])]
     emitted += his if ctx.thorough() else rng.sample(his, min(len(his), 150))
+    r = tlc.run("MC_Conformations", "Gen_Conformations_chains.cfg", workers=1, timeout=1800)
+    ctx.add_tlc(r, "input generator, two chains that share a residue number")
+    chn = [c["s"] for c in r.printed if len({(a["m"], a["alt"]) for a in c["s"]}) >= 2 and len({a["key"][0] for a in c["s"]}) == 2]
+    emitted += chn if ctx.thorough() else rng.sample(chn, min(len(chn), 150))
     inputs = [("gen-%d" % k, concretise(s)) for k, s in enumerate(emitted)]
     inputs += constructed(ctx)
     from . import c16
